@@ -13,6 +13,18 @@ REALS_AXIOMS = ["ClassicalDedekindReals.sig_forall_dec", "ClassicalDedekindReals
                 "FunctionalExtensionality.functional_extensionality_dep"]
 
 PROPS = {
+    "C08": {
+        "drivers": [{"src": "drv_C08.C", "repo_sources": ["covariant.cpp", "mode.cpp", "util/Pauli.C"]}],
+        "coq": ["Tie_C08_pairing.v", "Tie_C08_stats.v", "Properties_C08.v"],
+        "coq_thorough": ["Tie_C08_pairing_thorough.v"],
+        "thm_files": ["Queues.v", "LogNormal.v"],
+        "assumptions": ["statistics: for every expectation functional E2 over two independent deviates that is extensional and has the Gaussian moment generating function E2[exp(a x + b y + c)] = exp(c + a^2/2 + b^2/2) (Section hypotheses, no axiom)",
+                        "modulation indices non-zero; requests inside [rmin, rmax] (outside they are rejected: proved on every path)",
+                        "pairing: all interleavings by induction on the model; the real classes are run on every request word of length <= 6 (quick) / <= 8 (thorough)",
+                        "finiteness at the very edge of the admissible range is a floating-point clause: checked by a plain-build oracle over a (beta0, beta1) grid, not proved"],
+        "trusted_base": [],
+        "level_note": "Trusted: Coq kernel; Reals axioms; symx translator. The Gaussian mgf enters as a hypothesis of the closed theorems (named in evidence). Partial: finiteness at the edge of the admissible range in binary64 is explored by an oracle only.",
+    },
     "C18": {
         "drivers": [{"src": "drv_C18a.C", "tag": "C18a", "repo_sources": ["util/BoxMuller.C", "util/random.C"], "cxxflags": ["-DSYMX_SCRIPT_RANDOM"]},
                     {"src": "drv_C18b.C", "tag": "C18b", "repo_sources": []}],
